@@ -116,6 +116,11 @@ class Check:
         if ok is UNDECIDED:
             self.undecided.append({'key': '%s/%s' % (rule, key), 'rule': rule, 'site': site, 'msg': msg})
             return None
+        if not ok and rule in getattr(self, 'positive_only', {}):
+            # the behaviour this shape rule stands for was decided by an exhaustive evaluation in this run: a shape mismatch is not a refutation
+            self.undecided.append({'key': '%s/%s' % (rule, key), 'rule': rule, 'site': site,
+                                   'msg': '%s [shape not recognised by this rule; %s]' % (msg, self.positive_only[rule])})
+            return None
         if not ok and not rule.startswith(('E3', 'E4')):
             nh = self._new_helpers_at(site)
             if nh:
